@@ -130,6 +130,7 @@ type world struct {
 
 type caseCtx struct {
 	w       *world
+	mu      sync.Mutex // bookkeeping below (a mutated implementation may call back from a foreign goroutine)
 	dead    bool
 	svc     *reqSvc
 	pid     *actor.PID
@@ -182,11 +183,13 @@ func (c *caseCtx) mkcb(k int, sub []*act) as.ResCBFunc {
 		if common.GetRoutineID() != c.gid {
 			ctx = "!ctx"
 		}
+		c.mu.Lock()
 		c.cbs = append(c.cbs, fmt.Sprintf("%d:%s@%d%s", k, cls, c.now(), ctx))
 		c.done[k] = true
 		if cls == "timeout" {
 			c.order = append(c.order, strconv.Itoa(k))
 		}
+		c.mu.Unlock()
 		for _, a := range sub {
 			c.issue(a, "x.y")
 		}
@@ -195,11 +198,13 @@ func (c *caseCtx) mkcb(k int, sub []*act) as.ResCBFunc {
 
 // issue runs on the requester's own goroutine.
 func (c *caseCtx) issue(a *act, route string) {
+	c.mu.Lock()
 	k := c.nextTag
 	c.nextTag++
 	c.t0[k] = c.now()
 	c.kind[k] = a.kind
 	c.iss = append(c.iss, fmt.Sprintf("%d:%c@%d", k, a.kind, c.now()))
+	c.mu.Unlock()
 	var msg interface{} = &messages.TestHello{I: int32(k)}
 	if a.kind == 'F' || a.kind == 'f' || a.kind == 'n' {
 		msg = plain{k}
@@ -238,6 +243,8 @@ func (c *caseCtx) observe(status string) string {
 	sent := strings.Join(c.sent, ",")
 	c.sent = nil
 	c.w.mu.Unlock()
+	c.mu.Lock()
+	defer c.mu.Unlock()
 	o := fmt.Sprintf("%s iss=%s cb=%s sent=%s pend=%s", status, strings.Join(c.iss, ","), strings.Join(c.cbs, ","), sent, c.pend())
 	c.iss, c.cbs = nil, nil
 	return o
@@ -357,7 +364,9 @@ func (w *world) exec(op string) (string, string) {
 	case "noroute":
 		hasCb := hx.KVInt(ws, "cb") == 1
 		c.onSvc(func() {
+			c.mu.Lock()
 			c.iss = append(c.iss, fmt.Sprintf("x:X@%d", c.now()))
+			c.mu.Unlock()
 			var cb func(error, any)
 			if hasCb {
 				cb = func(e error, r any) {
@@ -365,7 +374,9 @@ func (w *world) exec(op string) (string, string) {
 					if common.GetRoutineID() != c.gid {
 						ctx = "!ctx"
 					}
+					c.mu.Lock()
 					c.cbs = append(c.cbs, fmt.Sprintf("x:%s@%d%s", classify(e, r), c.now(), ctx))
+					c.mu.Unlock()
 				}
 			}
 			app.Request(c.svc.NodeService, "nosuch.remote.hello", "", &messages.TestHello{I: 1}, cb)
@@ -405,10 +416,14 @@ func (w *world) exec(op string) (string, string) {
 		return op, c.observe("ok")
 	case "adv":
 		dt := hx.KVInt(ws, "dt")
+		c.mu.Lock()
 		c.order = nil
+		c.mu.Unlock()
 		time.Sleep(time.Duration(dt) * time.Millisecond)
 		synctest.Wait()
+		c.mu.Lock()
 		rec := fmt.Sprintf("adv dt=%d order=%s", dt, strings.Join(c.order, ","))
+		c.mu.Unlock()
 		return rec, c.observe("ok")
 	}
 	return op, "bad-op"
@@ -629,6 +644,7 @@ func TestRun(t *testing.T) {
 		run := func(op string) {
 			rec, obs := w.exec(stripOrder(op))
 			h.Emit(rec, obs)
+			h.Flush() // a crash of the code under test must not lose the ops that led to it
 		}
 		finish := func() {
 			h.Close()
@@ -655,4 +671,25 @@ func TestRun(t *testing.T) {
 		}
 		finish()
 	})
+}
+
+// TestWrapByAlloc (thorough tier): black-box check of the allocator across the
+// wrap at MaxReqId through the exported AllocReqId only (≈2^31 calls).
+func TestWrapByAlloc(t *testing.T) {
+	h := hx.Open()
+	defer h.Close()
+	run := func(count, tail int) {
+		s := as.NewService()
+		var last []string
+		for i := 0; i < count; i++ {
+			id := s.AllocReqId()
+			if i >= count-tail {
+				last = append(last, strconv.Itoa(int(id)))
+			}
+		}
+		h.Emit(fmt.Sprintf("allocrun count=%d tail=%d", count, tail), "ok ids="+strings.Join(last, ","))
+	}
+	run(5, 5)
+	run(maxReqId+6, 12)
+	h.Count("allocrun")
 }
